@@ -20,7 +20,8 @@ PKGDIR=$(dirname ${TARGET#$WT/})
 mkdir -p $(dirname $TARGET); cp $DST/demo_test.go $TARGET
 (cd $WT && GOFLAGS=-mod=mod GOPROXY=off timeout 1500 bash -c "$RUN") > $DST/demo_without.log 2>&1 && res_demo_without=pass || res_demo_without=fail
 rm -f $TARGET
-( cd $WT && git apply $DST/patch.diff ) || res_apply=conflict
+# plain apply first; if /repo has moved on since the change was written (fix: commits), fall back to a 3-way merge
+( cd $WT && git apply $DST/patch.diff 2>/dev/null ) || ( cd $WT && git apply -3 $DST/patch.diff && git reset -q ) || res_apply=conflict
 detected=""
 if [ $res_apply = ok ]; then
   cp $DST/demo_test.go $TARGET
